@@ -4,12 +4,13 @@
    (for_each), both on top of leaves REGENERATED from /repo (Gen/GenChunk.v).
    "At most maxThreads invocations at the same time" = every antichain of `seqb` (set of pairwise unordered
    invocations) has at most max(1, maxThreads) elements.
-   The property is FALSE for the code as it is, in two disjoint domains:
-     c48_dom_tail      static scheduling, wait=false, granularity tail, numThreads = the limit: numThreads
-                       scheduled chunks + runTail() on the calling thread           (C48_refuted)
-     c48_dom_override  explicit chunk size and range.size() <= poolThreads + wait: adjustChunkSizing REPLACES
-                       maxThreads by range.size() - wait, ignoring the caller's limit (C48_refuted_override)
-   and holds on the complement: C48_holds_except. *)
+   The property is FALSE for the code as it is on the domain
+     c48_dom = c48_dom_tail   static scheduling, wait=false, granularity tail, numThreads = the limit: numThreads
+                              scheduled chunks + runTail() on the calling thread           (C48_refuted)
+   and holds on the complement: C48_holds_except.
+   (A second domain -- explicit chunk size with range.size() <= poolThreads + wait, where adjustChunkSizing
+   REPLACED maxThreads by range.size() - wait -- was repaired in /repo; its witness is kept as the regression
+   Example C48_override_regression, and C48_limit_respected states the repaired fact for all configurations.) *)
 From Coq Require Import ZArith List Bool Lia.
 From DV Require Import Base.MachInt Model.ChunkModel Gen.GenChunk Model.ParForModel Model.PlanModel Model.ForEachModel
   Proofs.PlanProofs Proofs.C15Proofs Proofs.C48Proofs.
@@ -33,17 +34,7 @@ Theorem C48_refuted :
 Proof. exact C48_refuted_proof. Qed.
 Print Assumptions C48_refuted.
 
-(* explicit chunk 1, int32 [0,5), 7 pool threads, maxThreads 2, wait=true: 3 tasks + the caller *)
-Theorem C48_refuted_override :
-  exists c ring cl l,
-    pf_claims_ok c cl = true /\
-    (NoDup l /\ incl l (pf_plan c ring cl) /\ forall a b, In a l -> In b l -> a <> b -> seqb a b = false) /\
-    Z.of_nat (length l) > Z.max 1 (wrap_s 32 (pf_maxThreads c)) /\
-    c48_dom_override c = true /\ c = PF 4 0 5 1 7 2 1 1 true /\ length l = 4%nat.
-Proof. exact C48_refuted_override_proof. Qed.
-Print Assumptions C48_refuted_override.
-
-(* outside the two domains: all index kinds, chunking modes, granularities, wait modes, pool sizes, ring indices
+(* outside the domain: all index kinds, chunking modes, granularities, wait modes, pool sizes, ring indices
    and claim schedules *)
 Theorem C48_holds_except : forall c ring cl,
   pf_claims_ok c cl = true -> c48_dom c = false ->
@@ -54,18 +45,23 @@ Print Assumptions C48_holds_except.
 
 (* maxThreads 0 or 1 (or >= 2^31, which std::max<int32_t> reads as negative) => one invocation on the caller *)
 Theorem C48_serial : forall c ring cl,
-  Z.max 1 (wrap_s 32 (pf_maxThreads c)) = 1 -> c48_dom_override c = false ->
+  Z.max 1 (wrap_s 32 (pf_maxThreads c)) = 1 ->
   pf_plan c ring cl = [] \/ pf_plan c ring cl = [CALL CallerPre 0 0 (pf_s c) (pf_e c)].
 Proof. exact C48_serial_proof. Qed.
 Print Assumptions C48_serial.
 
-(* the override domain only contains explicit-chunk ranges on the dynamic path *)
-Theorem C48_override_domain : forall c,
-  c48_dom_override c = true ->
-  gen_range_isStatic_of (pf_kn c) (pf_chunk c) = false /\ d_path (pf_decide c) = PDynamic /\
-  Z.max 1 (wrap_s 32 (pf_maxThreads c)) < d_maxThreads (pf_decide c).
-Proof. exact C48_override_char_proof. Qed.
-Print Assumptions C48_override_domain.
+(* on every parallel path the thread count that adjustChunkSizing returns respects the caller's limit *)
+Theorem C48_limit_respected : forall c,
+  2 <= path_code (d_path (pf_decide c)) -> d_maxThreads (pf_decide c) <= Z.max 1 (wrap_s 32 (pf_maxThreads c)).
+Proof. exact C48_limit_respected_proof. Qed.
+Print Assumptions C48_limit_respected.
+
+(* regression for the repaired finding explicit-chunk-small-range-ignores-maxThreads:
+   explicit chunk 1, int32 [0,5), 7 pool threads, maxThreads 2, wait=true now runs 1 task + the caller on 2 states *)
+Example C48_override_regression :
+  let c := PF 4 0 5 1 7 2 1 1 true in
+  d_maxThreads (pf_decide c) = 2 /\ pf_numToLaunch c (pf_decide c) = 1 /\ pf_width c = 2 /\ pf_states_needed c = 2 /\ c48_dom c = false.
+Proof. exact C48_override_regression_proof. Qed.
 
 (* for_each_n: the plan has numThreads <= max(1,maxThreads) chunks in total, so any set of simultaneously running
    applications is at most that large (every n, pool size and wait mode) *)
@@ -80,5 +76,5 @@ Example C48_nonvacuous :
   pf_claims_ok c cl = true /\ c48_dom c = false /\ pf_width c = 3 /\
   antichainb (firstn 3 (pf_plan c (-1) cl)) = true /\
   c48_dom (PF 4 0 1003 2147483647 1 3 1 8 false) = false /\ pf_width (PF 4 0 1003 2147483647 1 3 1 8 false) = 3 /\
-  c48_dom (PF 4 0 1003 2147483647 4 2 1 8 false) = true /\ c48_dom (PF 4 0 5 1 7 1 1 1 true) = true.
+  c48_dom (PF 4 0 1003 2147483647 4 2 1 8 false) = true /\ c48_dom (PF 4 0 5 1 7 1 1 1 true) = false.
 Proof. vm_compute. repeat split; reflexivity. Qed.
